@@ -32,8 +32,14 @@ func randBytes(r *rand.Rand, n int) []byte {
 }
 
 // convMessage returns (id, body) of a random terminal-originated message
+var burstMode bool // only the message types whose reply depends on the body (handlers keep parse state)
+
 func convMessage(r *rand.Rand, t *term) (int, []byte) {
-	switch r.Intn(22) {
+	k := r.Intn(22)
+	if burstMode {
+		k = []int{7, 8, 10, 14, 15}[r.Intn(5)]
+	}
+	switch k {
 	case 0, 1, 2:
 		return 0x0002, nil
 	case 3, 4:
@@ -88,6 +94,7 @@ func init() {
 	cmds["live-c06"] = func(a []string) {
 		nconn, nmsg := atoi(a[0]), atoi(a[1])
 		wrap := len(a) > 3 && a[3] == "wrap"
+		burstMode = len(a) > 3 && a[3] == "burst"
 		l := startLive(liveOpts{traceTo: a[2]})
 		r := newRand(606)
 		var wg sync.WaitGroup
@@ -124,7 +131,7 @@ func init() {
 						}
 						continue
 					}
-					if rr.Intn(10) == 0 { // a sub-packaged message: counts once, when complete
+					if !burstMode && rr.Intn(10) == 0 { // a sub-packaged message: counts once, when complete
 						total := 2 + rr.Intn(3)
 						id := []int{0x0801, 0x0200, 0x0704}[rr.Intn(3)]
 						order := rr.Perm(total - 1)
@@ -188,5 +195,51 @@ func init() {
 		wg.Wait()
 		time.Sleep(100 * time.Millisecond)
 		l.dump(a[2])
+	}
+}
+
+func init() {
+	// live-c06wrap <out>: 65540 heartbeats on one connection; the frames around the 16-bit wrap of the
+	// platform serial (and the first ones) are recorded for spec/Trace_Serials.tla
+	cmds["live-c06wrap"] = func(a []string) {
+		l := startLive(liveOpts{})
+		phone := []byte{0x01, 0x31, 0x00, 0x7d, 0x7e, 0x01}
+		t := l.dial(phone, 0)
+		const total = 65540
+		t.serial = 65000 // the terminal's own serial wraps too
+		type rec struct {
+			I       int `json:"i"`
+			TSerial int `json:"tserial"`
+			Frame   B   `json:"frame"`
+		}
+		tser := make([]int, total+1)
+		go func() {
+			for i := 1; i <= total; i++ {
+				f := t.frame(0x0002, nil)
+				tser[i] = t.serial
+				t.send(f)
+				if i%2000 == 0 {
+					t.waitRecv(int64(i-1500), 20*time.Second)
+				}
+			}
+		}()
+		out := newND(a[0])
+		defer out.close()
+		got := 0
+		dl := time.After(90 * time.Second)
+	loop:
+		for got < total {
+			select {
+			case fr := <-t.recvCh:
+				got++
+				if got <= 30 || (got >= 65500 && got <= total) || got%8192 == 0 {
+					out.put(map[string]any{"ev": "reply", "i": got, "tserial": tser[got], "frame": B(fr), "phone": B(phone), "ver": 0})
+				}
+			case <-dl:
+				break loop
+			}
+		}
+		out.put(map[string]any{"ev": "count", "i": got, "tserial": 0, "frame": B{}, "phone": B(phone), "ver": 0})
+		t.close(false)
 	}
 }
